@@ -21,6 +21,8 @@ ASSUME = [
     "the rate limiter is exercised with 2 keys x 2 values at the real MAX_STATE_COUNT; keys are independent map entries",
     "monitor loop runs: tokio's paused clock (test-util) only replaces the 15 s sleep between two polls; an iteration of "
     "monitor_thread has no suspension point, so the environment (status file of the agent, enable handler) acts between polls",
+    "the install step of the monitor loop (new sequence number under a version mismatch) is one failed observation of the "
+    "history, whatever the setup tool answered: the code feeds it to the state machine (report_proxy_agent_service_status)",
 ]
 
 NS_ENTER = os.path.join(util.VERIF, "harness", "sys", "ns_enter.sh")
@@ -80,16 +82,23 @@ def health_rows(inputs_rle, outs_rle):
 
 
 def monitor_histories(rnd, thorough):
-    """histories for the real monitor loop: (seq0, [(sequence-number changes before the poll, status-file letter)])"""
+    """histories for the real monitor loop: {seq0, steps: [(sequence-number changes before the poll, status-file letter,
+    what the stand-in setup tool's `install` does from now on)], ext: version of the extension's copy of the agent
+    (the installed stand-in answers 1.0.30: anything else is a version mismatch), tmp: the process's temporary
+    directory on the 'same' file system as the status folder or on an'other' one}"""
     H = []
 
+    def add(seq0, steps, ext="1.0.30", tmp="same"):
+        H.append({"seq0": seq0, "steps": [(list(ch), a, i) for ch, a, i in steps], "ext": ext, "tmp": tmp})
+
     def h(seq0, text):
-        # "s u +1u u +2+1m": letters, each optionally preceded by +<seq> changes
+        # "s u +1u u +2+1m": letters, each optionally preceded by +<seq> changes; both file-system layouts
         steps = []
         for tok in text.split():
             parts = tok.split("+")
-            steps.append((parts[1:-1] + ([parts[-1][:-1]] if len(parts) > 1 else []), tok[-1]))
-        H.append((seq0, steps))
+            steps.append((parts[1:-1] + ([parts[-1][:-1]] if len(parts) > 1 else []), tok[-1], ""))
+        add(seq0, steps, tmp="same")
+        add(seq0, steps, tmp="other")
     # directed: a new goal state while the report stays the same (idle healthy agent, persistently failing agent)
     h("0", "s u +1u u u")
     h("0", "s +1u u +2u +3u u")
@@ -99,17 +108,37 @@ def monitor_histories(rnd, thorough):
     h("0", "v v +1v v g +2g g +12s u +13u")
     h("7", "s u " + " ".join(["m"] * 19) + " +8m m +9m u +10u")   # around the threshold
     h("0", "s " + " ".join(["u"] * 130) + " +1u u")               # beyond 120 repetitions
-    # small scope, exhaustive: every history of 3 (thorough: 4) polls over these steps
+    # directed: a new goal state under a VERSION MISMATCH, the install step fails / cannot be started / succeeds
+    N, M = "1.0.31", []
+    M.append([((), "s", "0"), ((), "u", ""), (("1",), "u", "1"), ((), "u", ""), ((), "u", ""), ((), "u", "")])
+    M.append([((), "s", "x"), ((), "u", ""), ((), "u", ""), (("1",), "u", ""), ((), "u", ""), ((), "m", ""), ((), "u", ""), ((), "u", "")])
+    M.append([((), "v", "3"), ((), "v", ""), ((), "v", ""), (("1",), "v", ""), ((), "v", "")] + [((), "v", "")] * 20 +
+             [((), "s", ""), ((), "u", ""), ((), "u", "")])       # the old agent keeps running
+    M.append([((), "m", "0")] + [((), "m", "")] * 16 + [(("1",), "m", "1")] + [((), "m", "")] * 4 + [((), "u", ""), ((), "u", "")])
+    M.append([((), "s", "1"), ((), "u", ""), (("1",), "u", "0"), ((), "u", ""), ((), "u", "")])   # a later install succeeds
+    M.append([((), "s", "0"), (("1",), "u", "7"), (("2",), "m", "x"), (("3",), "u", "0"), ((), "u", ""), (("4", "3"), "u", "1"), ((), "u", "")])
+    for k, st in enumerate(M):
+        add("0", st, ext=N, tmp="same")
+        add("0", st, ext=N, tmp="other")
+    # small scope, exhaustive: every history of 3 (thorough: 4) polls over these steps; layouts alternate
     steps = [(chg, a) for a in ("suvm" if thorough else "sum") for chg in ((), ("n",), ("n", "p"))]
-    for combo in itertools.product(steps, repeat=3):
-        H.append(("0", _concrete(combo)))
+    for k, combo in enumerate(itertools.product(steps, repeat=3)):
+        add("0", _concrete(combo), tmp=("same", "other")[k % 2])
     if thorough:
-        for combo in itertools.product([(chg, a) for a in "sum" for chg in ((), ("n",))], repeat=4):
-            H.append(("0", _concrete(combo)))
+        for k, combo in enumerate(itertools.product([(chg, a) for a in "sum" for chg in ((), ("n",))], repeat=4)):
+            add("0", _concrete(combo), tmp=("same", "other")[k % 2])
+    # ... and under a version mismatch, for every behaviour of the install command
+    steps = [(chg, a) for a in ("usm" if thorough else "um") for chg in ((), ("n",))]
+    for inst in ("0", "1", "x"):
+        for k, combo in enumerate(itertools.product(steps, repeat=3)):
+            st = _concrete(combo)
+            st[0] = (st[0][0], st[0][1], inst)
+            add("0", st, ext=N, tmp=("other", "same")[k % 2])
     # seeded random: runs of one letter, sequence-number changes sprinkled in (also back to earlier numbers)
     for _ in range(60 if not thorough else 600):
         seq, seen, steps = rnd.choice(["0", "0", "5"]), [], []
         seq0 = seq
+        mism = rnd.random() < 0.35
         for _ in range(rnd.randint(2, 7)):
             a = rnd.choice("suuummvg")
             for _ in range(rnd.choice([1, 1, 2, 3, 3, 19, 20, 21, rnd.randint(1, 30)])):
@@ -127,8 +156,9 @@ def monitor_histories(rnd, thorough):
                     if x != seq:
                         seen.append(seq)
                         seq = x
-                steps.append((chg, a))
-        H.append((seq0, steps))
+                inst = rnd.choice(["0", "1", "7", "x"]) if mism and (not steps or rnd.random() < 0.1) else ""
+                steps.append((chg, a, inst))
+        add(seq0, steps, ext=N if mism else "1.0.30", tmp=rnd.choice(["same", "other"]))
     return H
 
 
@@ -140,55 +170,80 @@ def _concrete(combo):
         for x in chg:
             seq = seq + 1 if x == "n" else seq - 1
             cs.append(str(seq))
-        out.append((cs, a))
+        out.append((cs, a, ""))
     return out
 
 
+ABSENT = {"by": "absent", "st": "none", "obs": "none"}
+
+
 def monitor_loop(c, bindir, rnd, thorough):
-    """5. the REAL monitor loop (hook H10, paused tokio clock) with sequence-number changes: what <seq>.status of the
-    current sequence number says after every poll, decided by TLC against HealthLoopTrace"""
-    # the design: the loop with the handler moving the sequence number; the memoised designs must be rejected
-    c.tlc("HealthLoop", "HealthLoop.cfg", workers=4, deadlock=True, required_actions=["Poll", "SeqChange", "AggChange"], timeout=600)
-    for cfg in ("HealthLoop_unkeyed.cfg", "HealthLoop_keyed.cfg"):
+    """5. the REAL monitor loop (hook H10, paused tokio clock) with sequence-number changes, failing install steps and the
+    status folder on the same / another file system than the temporary directory: what <seq>.status of the current
+    sequence number says after every poll, decided by TLC against HealthLoopTrace"""
+    # the design: the loop with the handler moving the sequence number; the defective designs must be rejected
+    c.tlc("HealthLoop", "HealthLoop.cfg", workers=4, deadlock=True, required_actions=["Poll", "SeqChange", "AggChange", "Install"],
+          timeout=600)
+    c.tlc("HealthLoop", "HealthLoop_temprename_samefs.cfg", workers=2, deadlock=True, required_actions=["Poll", "SeqChange"], timeout=600)
+    for cfg, why in (("HealthLoop_unkeyed.cfg", "the memoised write must leave the handler's text in the current status file"),
+                     ("HealthLoop_keyed.cfg", "the memoised write must leave the handler's text in the current status file"),
+                     ("HealthLoop_codeoverride.cfg", "a report overridden by the install step's code is not the hysteresis value"),
+                     ("HealthLoop_temprename.cfg", "a rename across file systems never reaches the status folder")):
         r = c.tlc("HealthLoop", cfg, workers=1, coverage=False, deadlock=True, expect_ok=False, timeout=600)
         if r.invariant_violated not in ("CurrentSeqFileIsThisPollsReport", "NoStaleHandlerText"):
-            raise util.ToolError("%s: the memoised write must leave the handler's text in the current status file "
-                                 "(anti-vacuity); TLC said %s" % (cfg, r.invariant_violated or r.error_lines[:2] or "no violation"))
+            raise util.ToolError("%s: %s (anti-vacuity); TLC said %s" % (
+                cfg, why, r.invariant_violated or r.error_lines[:2] or "no violation"))
         c.extra.setdefault("corner_configs", {})[cfg] = "violates %s at depth %d" % (r.invariant_violated, r.depth)
     hist = monitor_histories(rnd, thorough)
-    S = os.path.join(util.RUNDIR, "c20_monitor")
-    shutil.rmtree(S, ignore_errors=True)
-    os.makedirs(os.path.join(S, "h"))
-    exe = os.path.join(S, "h", "verif-ext")
-    try:
-        os.link(os.path.join(bindir, "verif-ext"), exe)
-    except OSError:
-        shutil.copy2(os.path.join(bindir, "verif-ext"), exe)
-    inp = "".join(json.dumps({"kind": "monitor", "seq0": s0, "steps": [[list(ch), a] for ch, a in st]}) + "\n" for s0, st in hist)
+    # four sandboxes side by side (each its own scratch directory, namespace and overlays); history k goes to sandbox k % 4
+    NW = 4
+    lines = [json.dumps({"kind": "monitor", "seq0": h["seq0"], "ext_version": h["ext"], "tmp": h["tmp"],
+                         "steps": h["steps"]}) + "\n" for h in hist]
     t = util.Timer()
-    try:
-        p = subprocess.run([NS_ENTER, S, exe], input=inp, stdout=subprocess.PIPE, stderr=subprocess.PIPE, text=True,
-                           timeout=1800, env=dict(os.environ, VERIF_C17_LAYOUT="separate"))
-    except subprocess.TimeoutExpired:
-        raise util.ToolError("the monitor loop driver timed out (is the tokio clock paused?)")
-    finally:
-        shutil.rmtree(os.path.join(S, "ov"), ignore_errors=True)
-    if p.returncode != 0:
-        raise util.ToolError("verif-ext monitor driver failed rc=%s: %s" % (p.returncode, p.stderr[-2000:]))
-    outs = [json.loads(l) for l in p.stdout.splitlines() if l.strip()]
-    if len(outs) != len(hist):
-        raise util.ToolError("monitor driver answered %d of %d histories" % (len(outs), len(hist)))
+
+    def worker(w):
+        S = os.path.join(util.RUNDIR, "c20_monitor%d" % w)
+        shutil.rmtree(S, ignore_errors=True)
+        os.makedirs(os.path.join(S, "h"))
+        exe = os.path.join(S, "h", "verif-ext")
+        try:
+            os.link(os.path.join(bindir, "verif-ext"), exe)
+        except OSError:
+            shutil.copy2(os.path.join(bindir, "verif-ext"), exe)
+        try:
+            p = subprocess.run([NS_ENTER, S, exe], input="".join(lines[w::NW]), stdout=subprocess.PIPE, stderr=subprocess.PIPE,
+                               text=True, timeout=1800, env=dict(os.environ, VERIF_C17_LAYOUT="separate"))
+        except subprocess.TimeoutExpired:
+            raise util.ToolError("the monitor loop driver timed out (is the tokio clock paused?)")
+        finally:
+            shutil.rmtree(os.path.join(S, "ov"), ignore_errors=True)
+        if p.returncode != 0:
+            raise util.ToolError("verif-ext monitor driver failed rc=%s: %s" % (p.returncode, p.stderr[-2000:]))
+        return [json.loads(l) for l in p.stdout.splitlines() if l.strip()]
+    from concurrent.futures import ThreadPoolExecutor
+    with ThreadPoolExecutor(NW) as ex:
+        parts = list(ex.map(worker, range(NW)))
+    outs = [None] * len(hist)
+    for w, part in enumerate(parts):
+        if len(part) != len(lines[w::NW]):
+            raise util.ToolError("monitor driver %d answered %d of %d histories" % (w, len(part), len(lines[w::NW])))
+        outs[w::NW] = part
     util.log("monitor loop: %d histories, %d polls, %d virtual seconds in %ss" % (
         len(hist), sum(o["polls"] for o in outs), sum(o["virtual_s"] for o in outs), t.s()))
-    rows, per_hist, seqchg, carried = [], [], 0, 0
-    for (seq0, steps), o in zip(hist, outs):
+    rows, per_hist, seqchg, carried, installs, failed_then_ok, layouts = [], [], 0, 0, 0, 0, {True: 0, False: 0}
+    for h, o in zip(hist, outs):
+        seq0, steps = h["seq0"], h["steps"]
         names = o["names"]
         ev = o["events"]
-        if not ev or ev[0]["e"] != "reset" or not ev[0]["wrote"] or seq0 not in ev[0]["files"]:
-            raise util.ToolError("monitor: `enable %s` did not write its status file before the loop started" % seq0)
-        hdoc = ev[0]["files"][seq0]
-        if hdoc.get("status") != "transitioning" or hdoc.get("sub"):
-            raise util.ToolError("monitor: unexpected document of the enable handler: %r" % hdoc)
+        mism = o["ext_version"] != o["installed_version"]
+        if mism != (h["ext"] != "1.0.30") or o["same_fs"] != (h["tmp"] == "same"):
+            raise util.ToolError("monitor: the driver ran another environment than asked for: %r / %r" % (h, {k: o[k] for k in ("ext_version", "same_fs")}))
+        layouts[o["same_fs"]] += 1
+        hdoc = o["handler_doc"]
+        if not isinstance(hdoc, dict) or hdoc.get("sub") or "message" not in hdoc:
+            raise util.ToolError("monitor: cannot tell what the enable handler's document looks like: %r" % (hdoc,))
+        if not ev or ev[0]["e"] != "reset" or not ev[0]["wrote"]:
+            raise util.ToolError("monitor: `enable %s` before the loop started: %r" % (seq0, ev[:1]))
 
         def digest(d):
             if "raw" in d:
@@ -210,29 +265,47 @@ def monitor_loop(c, bindir, rnd, thorough):
                 obs = ("v" if "does not match proxy agent file version" in m else
                        "m" if "No such file" in m or "os error 2" in m else "g")
             return {"by": "loop", "st": str(d["status"]), "obs": obs}
-        cur, npoll, hrows, changed, last_obs = None, 0, [], False, None
+        cur, cached, inst, npoll, hrows, changed, last_obs, pending_fail = None, None, "0", 0, [], False, None, False
         for e in ev:
             files = {k: digest(v) for k, v in e["files"].items()}
             if e["e"] == "reset":
                 cur = e["cur"]
-                hrows.append({"e": "reset", "cur": cur, "files": files})
+                files.setdefault(cur, dict(ABSENT))      # the handler's document did not reach the folder: an observation
+                hrows.append({"e": "reset", "cur": cur, "mismatch": 1 if mism else 0, "files": files})
             elif e["e"] == "seq":
                 if e["wrote"] != (e["to"] != cur):
                     raise util.ToolError("monitor: enable %s under %s: wrote=%s" % (e["to"], cur, e["wrote"]))
                 if e["wrote"]:
-                    if files.get(e["to"], {}).get("by") != "handler":
-                        raise util.ToolError("monitor: after `enable %s` its status file is not the handler's: %r" % (e["to"], files.get(e["to"])))
                     cur = e["to"]
                     seqchg += 1
                     changed = True
+                    files.setdefault(cur, dict(ABSENT))
                     hrows.append({"e": "seq", "to": cur, "files": files})
             else:
                 if e["polls_seen"] != 1:
                     raise util.ToolError("monitor: %d iterations of the loop between two driver steps (expected 1) in %r"
-                                         % (e["polls_seen"], (seq0, steps)))
+                                         % (e["polls_seen"], h))
+                if steps[npoll][2]:
+                    inst = steps[npoll][2]
+                calls = [x.split()[0] if x.split() else "" for x in e["setup"]]
+                will_install = mism and cached != cur
+                if inst != "x" and ("install" in calls) != will_install:
+                    raise util.ToolError("monitor: install step %s at poll %d of %r (setup tool calls %r)" % (
+                        "expected" if will_install else "not expected", npoll, h, e["setup"]))
+                if not mism and [x for x in calls if x not in ("purge", "restore")]:
+                    raise util.ToolError("monitor: the loop ran the setup tool stand-in with %r without a version mismatch" % e["setup"])
+                if will_install:
+                    rc = 4 if inst == "x" else int(inst)
+                    installs += 1
+                    hrows.append({"e": "install", "rc": rc})
+                    pending_fail = pending_fail or rc != 0
+                cached = cur
                 npoll += 1
-                files.setdefault(cur, {"by": "absent", "st": "none", "obs": "none"})
+                files.setdefault(cur, dict(ABSENT))
                 hrows.append({"e": "poll", "ok": e["ok"], "obs": e["obs"], "files": files})
+                if pending_fail and e["ok"]:
+                    failed_then_ok += 1
+                    pending_fail = False
                 if changed and last_obs == e["obs"]:
                     carried += 1           # a sequence-number change under an unchanged observation
                 changed, last_obs = False, e["obs"]
@@ -240,21 +313,26 @@ def monitor_loop(c, bindir, rnd, thorough):
             raise util.ToolError("monitor: the loop completed %d/%d polls of %d" % (npoll, o["polls"], len(steps)))
         if o["cur"] != cur:
             raise util.ToolError("monitor: current_seq_no.txt says %r, the driver %r" % (o["cur"], cur))
-        extra = [x for x in o["setup_calls"] if x not in ("purge", "restore")]
-        if extra:
-            raise util.ToolError("monitor: the loop ran the setup tool stand-in with %r (version stubs differ?)" % extra)
         if o["virtual_s"] < 15 * (len(steps) - 1):
             raise util.ToolError("monitor: %d polls in %d virtual seconds" % (len(steps), o["virtual_s"]))
         per_hist.append(hrows)
         rows += hrows
-        c.count("monitor:" + json.dumps([seq0, steps]))
+        c.count("monitor:" + json.dumps(h, sort_keys=True))
     if not seqchg or not carried:
         raise util.ToolError("monitor: no sequence-number change under an unchanged observation was exercised")
+    if not installs or not failed_then_ok:
+        raise util.ToolError("monitor: no failed install step followed by a successful observation was exercised")
+    if not layouts[True] or not layouts[False]:
+        raise util.ToolError("monitor: both file-system layouts (temporary directory on the status folder's file system / on "
+                             "another one) must be exercised: %r" % layouts)
     c.extra["monitor_thread_histories"] = len(hist)
     c.extra["monitor_thread_polls"] = sum(o["polls"] for o in outs)
     c.extra["monitor_thread_seq_changes"] = seqchg
     c.extra["monitor_thread_seq_changes_under_unchanged_observation"] = carried
-    c.sample({"monitor_history": [hist[0][0], hist[0][1]], "rows": per_hist[0][:4]})
+    c.extra["monitor_thread_install_steps"] = installs
+    c.extra["monitor_thread_failed_install_then_success_observation"] = failed_then_ok
+    c.extra["monitor_thread_layouts"] = {"tmp_on_status_folder_fs": layouts[True], "tmp_on_other_fs": layouts[False]}
+    c.sample({"monitor_history": hist[0], "rows": per_hist[0][:4]})
     ok, why, res = validate_trace(c, "HealthLoopTrace", "HealthLoopTrace.cfg", rows, "c20_loop_files", count=len(hist),
                                   timeout=1800, heap="4g")
     if not ok:
@@ -274,11 +352,21 @@ def monitor_loop(c, bindir, rnd, thorough):
             if ok1:
                 bad = None
         stale = "P_CurrentSeqFile" in why
+        kind = "current-seq-status-file-stale" if stale else "current-seq-status-file-hysteresis"
+        if stale and bad is not None:
+            cur = None
+            for r in per_hist[bad]:
+                cur = r.get("cur", r.get("to", cur))
+                if r["e"] == "poll" and r["files"][cur]["by"] != "loop":
+                    if r["files"][cur]["by"] == "absent":
+                        kind = "current-seq-status-file-missing"
+                    break
         c.violation("the monitor loop (service_main.rs monitor_thread, real loop under a paused clock): after a completed poll "
                     "the status file of the current sequence number %s (%s)%s" % (
+                        "is not there" if kind.endswith("missing") else
                         "does not carry the report of that poll" if stale else "breaks the hysteresis of C20", why,
                         "; history %r" % (hist[bad],) if bad is not None else ""),
-                    {"kind": "current-seq-status-file-stale" if stale else "current-seq-status-file-hysteresis", "broken": why},
+                    {"kind": kind, "broken": why},
                     {"history": hist[bad] if bad is not None else None, "trace": (per_hist[bad] if bad is not None else rows)[:400]})
 
 
